@@ -1096,6 +1096,8 @@ class Interp:
             return list(v.keys())
         if isinstance(v, (list, tuple)):
             return v
+        if isinstance(v, (set, frozenset)):
+            return sorted(v, key=lambda x: (type(x).__name__, str(x)))  # any fixed order: the fragment may not depend on it
         if isinstance(v, Obj) and "__iter__" in self.externals:
             try:
                 return list(self.externals["__iter__"](v))
@@ -1197,6 +1199,8 @@ class Interp:
                 def keyof(x):
                     if keyf is None:
                         v = x
+                    elif isinstance(keyf, PyFunc):
+                        v = keyf.f([x], {})
                     elif isinstance(keyf, Closure) and isinstance(keyf.node, ast.Lambda):
                         sub = Interp(self.env, self.selfattrs, self.region, self.methods, self.cls_name, externals=self.externals)
                         sub.env[keyf.node.args.args[0].arg] = x
@@ -1485,6 +1489,26 @@ class Interp:
                 if v.is_const():
                     return Poly.const(int(v.const_value()))
             raise Undecided(f"{name}() of a symbolic value")
+        if name in ("itemgetter", "attrgetter") and args and (isinstance(f, ast.Name) or A.dotted(f) in ("operator.itemgetter", "operator.attrgetter")):
+            keys_ = [ev(a) for a in args]
+
+            def getter(a_, k_, keys_=keys_, kind=name):
+                def one(obj, key):
+                    if kind == "attrgetter":
+                        if isinstance(obj, Obj) and key in obj.attrs:
+                            return obj.attrs[key]
+                        raise Undecided("attrgetter on an unmodelled object")
+                    if isinstance(obj, dict):
+                        if key not in obj:
+                            raise _PyRaise("KeyError")
+                        return obj[key]
+                    if isinstance(obj, (list, tuple)):
+                        return obj[int(to_poly(key).const_value())]
+                    raise Undecided("itemgetter on an unmodelled object")
+                vals = [one(a_[0], k2) for k2 in keys_]
+                return vals[0] if len(vals) == 1 else tuple(vals)
+
+            return PyFunc(getter, name)
         if name == "slice" and isinstance(f, ast.Name) and 1 <= len(args) <= 3:
             vs = [ev(a) for a in args]
             if len(vs) == 1:
